@@ -132,6 +132,12 @@ def classify(impl, model):
         return "skip", "entry form not applicable"
     if impl == "bad-case" or model.startswith("bad-case"):
         return "broken", f"case not understood (impl {impl}, model {model})"
+    if impl.startswith("twin-same:"):
+        return "same", "twin"
+    if impl.startswith("twin-differs:"):
+        a, b = impl[len("twin-differs:"):].split("|", 1)
+        return "fail", ("a program and its neutral twin (the same documented meaning - the reference semantics renders both alike -, "
+                        f"other body shapes) render differently under auto-escaping: {show(a)} vs. the twin {show(b)}")
     if model == "err:OUT-OF-FRAGMENT":
         return "skip", ""
     if model == "err:FUEL":
@@ -270,6 +276,14 @@ def run(r):
         r.broken.append(f"harness c03 argbind exited {rc}: {err[-300:]}")
         return
     ablines = [l.split("\t") for l in out.splitlines()]
+    # ---- the box of fast-path body shapes x auto-escape modes: see harness/src/bin/c03_esc.inc
+    rc, out, err = r.harness(exe, ["shapes"])
+    if rc != 0:
+        r.broken.append(f"harness c03 shapes exited {rc}: {err[-300:]}")
+        return
+    fplines = [l.split("\t") for l in out.splitlines()]
+    r.extra["shape_box_cases"] = len(fplines)
+    lines += fplines
     r.extra["argbind_box_cases"] = sum(1 for l in ablines if not l[2].startswith("(wrap "))
     r.extra["argbind_splat_and_rust_call_cases"] = sum(1 for l in ablines if l[2].startswith("(wrap "))
     lines += ablines
@@ -310,6 +324,7 @@ def run(r):
             why = frag[2:] if frag.startswith("-:") else "not compiled by the model generator"
             r.hist["proved_fragment"][("entry form: " if is_wrap else "") + "outside (" + why + ")"] += 1
         stream = "probe: defaults that read an earlier parameter (known deviation)" if is_sibling else \
+                 ("fast-path shape box" + (" under auto-escape modes" if is_wrap else "")) if cid.startswith("fp") else \
                  ("argument-binding box" + (" through splats / from Rust" if is_wrap else "")) if cid.startswith("ab") else \
                  ("entry-form cases" if is_wrap else ("generated programs" if cid.startswith("g") else "corpus / hand-written programs"))
         share[stream][1] += 1
@@ -317,7 +332,7 @@ def run(r):
         nbase += 0 if is_wrap else 1
         nwrap += 1 if is_wrap else 0
         # ---- stage 2 streams: model code generator vs real instruction stream, model VM vs engine / exec
-        if modelcode != "oof" and impl != "skip":
+        if modelcode != "oof" and impl != "skip" and not impl.startswith("twin-"):
             # (wrapper cases run several templates: there is no single real instruction stream)
             if realcode != "-":
                 ncode += 1
@@ -355,7 +370,7 @@ def run(r):
             r.hist["nodes"][str(min(int(st["nodes"]) // 10 * 10, 60)) + "+"] += 1
             r.hist["depth"][st["depth"]] += 1
             conds += int(st["conds"]); constconds += int(st["constconds"])
-        r.hist["engine_result"][impl.split(":")[0] if impl.startswith("ok") else impl[:40]] += 1
+        r.hist["engine_result"][impl.split(":")[0] if impl.startswith(("ok", "twin-")) else impl[:40]] += 1
         # input distribution: entry form and the value kinds of the render context
         r.hist["entry_form"][prog.split(" ")[1] if is_wrap else "render (stand-alone template)"] += 1
         for tag, name in (("(ss ", "safe string"), ("(s ", "string"), ("(i ", "int"), ("(l", "list"), ("(m ", "map")):
@@ -380,7 +395,7 @@ def run(r):
                         r.oracle_failure(f"{ctx}\t{prog}", f"variable / literal / mixed form of one construct render differently: {forms} [source: {src}] (found as {cid})",
                                          "literal-forms")
         verdict, detail = classify(impl, mres)
-        r.hist["verdict"][verdict + (":" + detail if detail == "errkind" else "")] += 1
+        r.hist["verdict"][verdict + (":" + detail if detail in ("errkind", "twin") else "")] += 1
         if verdict == "same" and detail == "errkind" and impl != mres:
             r.hist["errkind_differs"][impl + "/" + mres] += 1
         if verdict == "skip":
